@@ -454,6 +454,33 @@ theorem runAll_queued : ∀ (fuel : Nat) (s : State), Queued s → Queued (runAl
       have hq' : Queued { s with runq := q } := h.frame (QFrame.of_eq rfl rfl rfl)
       exact runAll_queued fuel _ (runTask_queued hq' i)
 
+theorem abortTask_queued {s : State} (h : Queued s) (i : Nat) : Queued (abortTask s i) := by
+  unfold abortTask
+  cases ht : taskOf s i with
+  | none => exact h
+  | some t =>
+    cases t with
+    | whenReady c tk hp => exact h.frame (QFrame.of_eq rfl rfl rfl)
+    | delayed r =>
+      simp only []
+      cases hco : s.co r with
+      | none => exact h.frame (QFrame.of_eq rfl rfl rfl)
+      | some c =>
+        simp only []
+        have f3 : QFrame none (removeTask s i) s := QFrame.of_eq rfl rfl rfl
+        have f4 := (cancelIfOwner_qframe none (removeTask s i) c).trans f3
+        have h4 := h.frame f4
+        have hr4 : (cancelIfOwner (removeTask s i) c).co r = some c := by rw [cancelIfOwner_co]; exact hco
+        exact h4.frame (QFrame.setCo _ r c _ hr4 rfl)
+
+theorem abortAll_queued : ∀ (fuel : Nat) (s : State), Queued s → Queued (abortAll fuel s)
+  | 0, _, h => h
+  | fuel + 1, s, h => by
+    simp only [abortAll]
+    split
+    · exact h.frame (QFrame.of_eq rfl rfl rfl)
+    · exact abortAll_queued fuel _ (abortTask_queued h _)
+
 theorem step_queued (s : State) (op : Op) (h : Queued s) : Queued (step s op).1 := by
   cases op with
   | issue r k mux =>
@@ -528,6 +555,7 @@ theorem step_queued (s : State) (op : Op) (h : Queued s) : Queued (step s op).1 
   | run => exact runAll_queued _ s h
   | tick ms => exact h.frame (QFrame.of_eq rfl rfl rfl)
   | mark => exact h
+  | shutdown => exact abortAll_queued _ s h
 
 theorem run_queued : ∀ (ops : List Op) (s : State), Queued s → Queued (run s ops).1
   | [], _, h => h
